@@ -700,6 +700,16 @@ class HelperInliner:
         self.failed: set[str] = set()
         kv = baseline.get(modname + "#vars")
         self.new_consts = new_module_constants(module_tree, set(kv) if kv is not None else None)
+        # constants of later origin imported from another module of the package (from .codegen import TABLE)
+        for st in module_tree.body:
+            if isinstance(st, ast.ImportFrom) and st.level >= 0 and st.module:
+                for other_name, other_tree in self.other.items():
+                    if other_name.split(".")[-1] == st.module.split(".")[-1]:
+                        okv = baseline.get(other_name + "#vars")
+                        oc = new_module_constants(other_tree, set(okv) if okv is not None else None)
+                        for al in st.names:
+                            if al.name in oc and (al.asname or al.name) not in self.new_consts and (kv is None or (al.asname or al.name) not in kv):
+                                self.new_consts[al.asname or al.name] = oc[al.name]
 
     def is_new(self, qualname: str, modname: str | None = None) -> bool:
         known = self.baseline.get(modname or self.modname)
@@ -1328,7 +1338,7 @@ def _unroll_bindings(target: ast.expr, elts: list[ast.expr]) -> list[dict[str, a
         return isinstance(e, (ast.Constant, ast.Name)) or (isinstance(e, ast.Attribute) and isinstance(e.value, ast.Name))
     out = []
     for e in elts:
-        if isinstance(target, ast.Name) and isinstance(e, ast.Constant):
+        if isinstance(target, ast.Name) and leaf(e):
             out.append({target.id: e})
         elif isinstance(target, ast.Tuple) and all(isinstance(t, ast.Name) for t in target.elts) and isinstance(e, (ast.Tuple, ast.List)) \
                 and len(e.elts) == len(target.elts) and all(leaf(x) for x in e.elts):
@@ -1496,6 +1506,8 @@ def lower(fn: ast.FunctionDef, tuples: bool = True, ifexp: bool = True) -> ast.F
                     and _unroll_bindings(st.target, _literal_elements(st.iter) or []) is not None \
                     and not any(isinstance(n, (ast.Break, ast.Continue)) for b in st.body for n in ast.walk(b)) \
                     and not any(isinstance(n, ast.Name) and isinstance(n.ctx, ast.Store) and n.id in {x.id for x in ast.walk(st.target) if isinstance(x, ast.Name)}
+                                for b in st.body for n in ast.walk(b)) \
+                    and not any(isinstance(n, ast.Name) and isinstance(n.ctx, ast.Store) and n.id in {x.id for e_ in (_literal_elements(st.iter) or []) for x in ast.walk(e_) if isinstance(x, ast.Name)}
                                 for b in st.body for n in ast.walk(b)):
                 # a loop over a literal tuple of constants (or of equally shaped literal tuples) is its unrolling
                 new = []
@@ -1581,6 +1593,25 @@ def lower(fn: ast.FunctionDef, tuples: bool = True, ifexp: bool = True) -> ast.F
             elif tuples and isinstance(st, ast.Try) and _keyerror_probe(st) is not None:
                 # try: <use D[K]> except KeyError: H   ->   if K in D: <use D[K]> else: H     (nothing else in the statement can raise KeyError)
                 new = _keyerror_probe(st)
+            elif tuples and isinstance(st, ast.For) and not st.orelse and isinstance(st.iter, ast.Call) and dotted(st.iter.func) in ("chain", "itertools.chain") \
+                    and st.iter.args and not st.iter.keywords and not any(isinstance(a_, ast.Starred) for a_ in st.iter.args) \
+                    and all(is_pure_expr(a_) or k_ == 0 for k_, a_ in enumerate(st.iter.args)) \
+                    and not any(isinstance(n, ast.Break) for b_ in st.body for n in ast.walk(b_)):
+                # for x in chain(A, B): body  ->  for x in A: body ; for x in B: body      (no break: every part is iterated to its end)
+                new = []
+                for a_ in st.iter.args:
+                    c = copy.deepcopy(st)
+                    c.iter = a_
+                    new.append(c)
+            elif tuples and isinstance(st, ast.For) and isinstance(st.iter, ast.GeneratorExp) and len(st.iter.generators) == 1 and not st.iter.generators[0].is_async \
+                    and not st.orelse and not any(isinstance(n, ast.Name) and n.id in {x.id for x in ast.walk(st.iter.generators[0].target) if isinstance(x, ast.Name)}
+                                                   and isinstance(n.ctx, ast.Store) for b_ in st.body for n in ast.walk(b_)):
+                # for T in (E for t in IT if c): body  ->  for t in IT: if c: T = E ; body
+                g_ = st.iter.generators[0]
+                inner_body: list[ast.stmt] = [ast.copy_location(ast.Assign(targets=[st.target], value=st.iter.elt), st)] + list(st.body)
+                for c_ in reversed(g_.ifs):
+                    inner_body = [ast.copy_location(ast.If(test=c_, body=inner_body, orelse=[]), st)]
+                new = [ast.copy_location(ast.For(target=g_.target, iter=g_.iter, body=inner_body, orelse=[]), st)]
             elif tuples and isinstance(st, ast.For) and _traversal_unpack(st) is not None:
                 # for node, parent, field, index in x.dfs():  ->  for _ti in x.dfs(): (node -> _ti.node, ...)
                 new = [_traversal_unpack(st)]  # type: ignore[list-item]
@@ -2106,11 +2137,16 @@ def _inline_adjacent(fn: ast.FunctionDef) -> None:
     """``t = <any expression>`` immediately followed by a statement whose *first evaluated* expression is ``t`` (its only
     use): the definition moves into the use.  Nothing is evaluated in between, so this holds for impure values too."""
 
-    def lead(e: ast.expr | None) -> ast.expr | None:
+    def leads(e: ast.expr | None) -> list[ast.Name]:
+        """The names that are read before anything with an effect of its own is evaluated in ``e`` (in evaluation order)."""
+        out: list[ast.Name] = []
         while e is not None:
             if isinstance(e, ast.Name):
-                return e
-            if isinstance(e, ast.Compare):
+                out.append(e)
+                return out
+            if isinstance(e, (ast.YieldFrom, ast.Await)):
+                e = e.value
+            elif isinstance(e, ast.Compare):
                 e = e.left
             elif isinstance(e, ast.UnaryOp):
                 e = e.operand
@@ -2120,12 +2156,26 @@ def _inline_adjacent(fn: ast.FunctionDef) -> None:
                 e = e.value
             elif isinstance(e, ast.Subscript):
                 e = e.value
-            elif isinstance(e, ast.Call) and e.args and not isinstance(e.args[0], ast.Starred) \
-                    and (isinstance(e.func, ast.Name) or (isinstance(e.func, ast.Attribute) and isinstance(e.func.value, ast.Name))):
-                e = e.args[0]  # looking up a function / a method of a local evaluates nothing of its own: the first argument comes first
+            elif isinstance(e, ast.Call):
+                f_ = e.func
+                if isinstance(f_, ast.Name):
+                    out.append(f_)  # the callee is looked up first
+                elif isinstance(f_, ast.Attribute) and isinstance(f_.value, ast.Name):
+                    out.append(f_.value)
+                else:
+                    return out + leads(f_)
+                # looking up a function / a method of a local evaluates nothing of its own: the first argument comes next
+                if e.args and not isinstance(e.args[0], ast.Starred):
+                    e = e.args[0]
+                else:
+                    return out
             else:
-                return None
-        return None
+                return out
+        return out
+
+    def lead(e: ast.expr | None) -> ast.expr | None:
+        ls = leads(e)
+        return ls[-1] if ls else None
 
     counts = _stores(fn)
 
@@ -2139,6 +2189,8 @@ def _inline_adjacent(fn: ast.FunctionDef) -> None:
                 uses = [n for n in ast.walk(fn) if isinstance(n, ast.Name) and n.id == nm and isinstance(n.ctx, ast.Load)]
                 head = nxt.test if isinstance(nxt, ast.If) else (nxt.value if isinstance(nxt, (ast.Return, ast.Expr, ast.Assign)) else None)
                 ld = lead(head)
+                if len(uses) == 1 and any(x is uses[0] for x in leads(head)):
+                    ld = uses[0]
                 if len(uses) == 1 and isinstance(st.value, ast.Name) and not isinstance(nxt, (ast.For, ast.While, ast.Try, ast.With, ast.FunctionDef, ast.ClassDef)) \
                         and any(n is uses[0] for n in ast.walk(nxt)) \
                         and not any(isinstance(n, ast.Name) and n.id == st.value.id and isinstance(n.ctx, (ast.Store, ast.Del)) for n in ast.walk(nxt)) \
@@ -2306,6 +2358,34 @@ def _param_copies(fn: ast.FunctionDef) -> None:
                 n.id = p_
 
 
+LAZY_SOURCES = {"dfs", "bfs", "get_child_nodes", "get_child_nodes_with_field", "iter_child_fields", "get_properties", "ancestors", "get_ancestors", "gather", "findall"}
+
+
+def _lazy_stream_locals(fn: ast.FunctionDef) -> None:
+    """``s = (E for t in x.dfs())`` ... ``for v in s:`` (the only use of s): the generator expression moves into the loop header.  Nothing
+    is evaluated when a generator expression over a generator method is created (the method call only creates a generator), so it does
+    not matter what runs in between."""
+    counts = _stores(fn)
+    for blk in [fn.body] + [b for n in ast.walk(fn) for b in _blocks(n) if n is not fn]:
+        for i, st in enumerate(list(blk)):
+            if not (isinstance(st, ast.Assign) and len(st.targets) == 1 and isinstance(st.targets[0], ast.Name) and isinstance(st.value, ast.GeneratorExp)):
+                continue
+            nm = st.targets[0].id
+            g0 = st.value.generators[0]
+            if counts.get(nm) != 1 or not (isinstance(g0.iter, ast.Call) and isinstance(g0.iter.func, ast.Attribute) and g0.iter.func.attr in LAZY_SOURCES
+                                          and dotted(g0.iter.func.value) is not None and all(is_pure_expr(a_) for a_ in g0.iter.args)):
+                continue
+            uses = [n for n in ast.walk(fn) if isinstance(n, ast.Name) and n.id == nm and isinstance(n.ctx, ast.Load)]
+            loops = [lp for lp in blk[i + 1:] if isinstance(lp, ast.For) and lp.iter is (uses[0] if uses else None)]
+            if len(uses) == 1 and len(loops) == 1:
+                # the receiver must still name the same object when the loop starts
+                recv = {x.id for x in ast.walk(g0.iter.func.value) if isinstance(x, ast.Name)}
+                between = blk[i + 1:blk.index(loops[0])]
+                if not any(isinstance(n, ast.Name) and isinstance(n.ctx, ast.Store) and n.id in recv for b_ in between for n in ast.walk(b_)):
+                    loops[0].iter = st.value
+                    blk.remove(st)
+
+
 def _collect_loops(fn: ast.FunctionDef) -> None:
     """``X = {}`` / ``[]`` followed by a loop that does nothing but fill X (guards spelled as ``if C: continue`` or ``if C: <store>``) is the
     comprehension with the same elements in the same order.  The loop variables must not be read after the loop."""
@@ -2420,6 +2500,8 @@ def normalize(fn: ast.FunctionDef, cls: ast.ClassDef | None, qual: str, inliner:
             if consts:
                 new.body = [_Subst(consts).visit(st) for st in new.body]
         new.body = _canon_body(new)  # inlined helper bodies get the same canonical spellings
+    new = lower(new, tuples=True, ifexp=False)
+    _lazy_stream_locals(new)
     new = lower(new, tuples=True, ifexp=False)
     _param_copies(new)
     _search_loops(new)
